@@ -58,3 +58,103 @@ Example C11_ex_append5 :
   append_all FL FB [1; 2; 3; 4; 5]%nat (rinit FE) =
   Some (RS (FB (FB (FB (FL 1) (FL 2)) (FB (FL 3) (FL 4))) (FL 5)) [FL 5; FB (FB (FL 1) (FL 2)) (FB (FL 3) (FL 4))] 5)%nat.
 Proof. vm_compute. reflexivity. Qed.
+
+(* ==================== proofs, update, reload (second round) ==================== *)
+From LE Require Import RMT.Proof RMT.NodeProofs RMT.IndexProofs RMT.ProofSoundTop RMT.ProofCompleteTop RMT.Reload.
+
+(* The (layer, index) addressing of the Go code: node (k, i) of l carries the LIP-0031 root of the slice
+   l[i*2^k, (i+1)*2^k); a node whose right half is empty has the value of its left child, otherwise it is the branch
+   hash of its children. *)
+Theorem C11_node_addressing : forall (D Hsh : Type) (hempty : Hsh) (hleaf : D -> Hsh) (hbranch : Hsh -> Hsh -> Hsh)
+    (l : list D) (k i : N),
+  i * 2 ^ (k + 1) < len l ->
+  nval hempty hleaf hbranch l (k + 1) i =
+  if (2 * i + 1) * 2 ^ k <? len l
+  then hbranch (nval hempty hleaf hbranch l k (2 * i)) (nval hempty hleaf hbranch l k (2 * i + 1))
+  else nval hempty hleaf hbranch l k (2 * i).
+Proof. exact @nval_step. Qed.
+
+(* SOUNDNESS of VerifyProof (the faithful calculatePathNodes model), every tree size 1 <= n <= 2^29, any number of
+   claims, any sibling hashes: if every non-zero index is the index of a leaf of the tree (leaf_idx n pos = 2^height + pos,
+   pos < n) and the proof verifies against the LIP-0031 root of l, then every claimed hash is the leaf hash of l at the
+   claimed position.  Hypotheses on the hash: the equality test decides equality, the branch hash is injective. *)
+Theorem C11_proof_sound : forall (n : N), size_ok n ->
+  forall (D Hsh : Type) (hempty : Hsh) (hleaf : D -> Hsh) (hbranch : Hsh -> Hsh -> Hsh) (heqb : Hsh -> Hsh -> bool),
+  (forall a b, heqb a b = true -> a = b) ->
+  (forall a b c d, hbranch a b = hbranch c d -> a = c /\ b = d) ->
+  forall (l : list D), len l = n ->
+  forall (qs : list Hsh) (idxs : list N) (sibs : list Hsh),
+  leaf_claims n idxs ->
+  verify_proof hbranch heqb qs n idxs sibs (mroot hempty hleaf hbranch l) = true ->
+  forall (j : nat) (pos : N) (q : Hsh) (x : D),
+  nth_error idxs j = Some (leaf_idx n pos) -> nth_error qs j = Some q -> nth_error l (N.to_nat pos) = Some x ->
+  q = hleaf x.
+Proof. exact @proof_sound. Qed.
+
+(* ... hence a proof never verifies for other leaf data (under leaf-hash injectivity) *)
+Theorem C11_proof_rejects_other_data : forall (n : N), size_ok n ->
+  forall (D Hsh : Type) (hempty : Hsh) (hleaf : D -> Hsh) (hbranch : Hsh -> Hsh -> Hsh) (heqb : Hsh -> Hsh -> bool),
+  (forall a b, heqb a b = true -> a = b) ->
+  (forall a b c d, hbranch a b = hbranch c d -> a = c /\ b = d) ->
+  (forall x y, hleaf x = hleaf y -> x = y) ->
+  forall (l : list D), len l = n ->
+  forall (ds : list D) (idxs : list N) (sibs : list Hsh) (j : nat) (pos : N) (d x : D),
+  leaf_claims n idxs ->
+  nth_error idxs j = Some (leaf_idx n pos) -> nth_error ds j = Some d -> nth_error l (N.to_nat pos) = Some x -> d <> x ->
+  verify_proof hbranch heqb (map hleaf ds) n idxs sibs (mroot hempty hleaf hbranch l) = false.
+Proof.
+  intros n Hn D Hsh hempty hleaf hbranch heqb He Hb Hl l Hlen ds idxs sibs j pos d x Hc Hi Hd Hx Hne.
+  destruct (verify_proof hbranch heqb (map hleaf ds) n idxs sibs (mroot hempty hleaf hbranch l)) eqn:E; [|reflexivity].
+  exfalso. apply Hne. apply Hl.
+  eapply (proof_sound n Hn hempty hleaf hbranch heqb He Hb l Hlen (map hleaf ds) idxs sibs Hc E j pos); eauto.
+  rewrite nth_error_map, Hd. reflexivity.
+Qed.
+
+(* PARTIAL (one query).  Full statement aimed at: for every list of leaf positions, GenerateProof followed by VerifyProof
+   against mroot l is true.  Proved: for ONE queried leaf, every tree size 1 <= n <= 2^29, with the store answering
+   node (k, i) by the value of that node ([node_of]).  Missing: several queries at once (the prover merges adjacent
+   sibling pairs in one step where the verifier takes two; the lock-step simulation is not proved) — tied by the
+   correspondence runs (all subsets of every tree with n <= 8, random beyond). *)
+Theorem C11_proof_complete_single_query_partial : forall (n : N), size_ok n ->
+  forall (D Hsh : Type) (hempty : Hsh) (hleaf : D -> Hsh) (hbranch : Hsh -> Hsh -> Hsh) (heqb : Hsh -> Hsh -> bool),
+  (forall a, heqb a a = true) ->
+  forall (l : list D), len l = n -> forall pos, pos < n -> forall x, nth_error l (N.to_nat pos) = Some x ->
+  exists sibs, generate_proof (node_of hempty hleaf hbranch l) n [Some (0, pos)] = Ok (n, [leaf_idx n pos], sibs) /\
+               verify_proof hbranch heqb [hleaf x] n [leaf_idx n pos] sibs (mroot hempty hleaf hbranch l) = true.
+Proof. exact @proof_complete_single. Qed.
+
+(* PARTIAL (one index).  Full statement aimed at: Update(idxs, data) yields the root of the list with all those
+   positions replaced.  Proved: for ONE updated leaf, every tree size: the sibling hashes read from the old tree and the
+   new leaf hash recompute exactly the LIP-0031 root of the modified list.  Missing: several indexes at once. *)
+Theorem C11_update_gives_root_of_modified_list_single_partial : forall (n : N), size_ok n ->
+  forall (D Hsh : Type) (hempty : Hsh) (hleaf : D -> Hsh) (hbranch : Hsh -> Hsh -> Hsh) (heqb : Hsh -> Hsh -> bool),
+  (forall a, heqb a a = true) ->
+  forall (l : list D), len l = n -> forall pos, pos < n -> forall y,
+  update_root hbranch heqb (node_of hempty hleaf hbranch l) n [leaf_idx n pos] [hleaf y] =
+  Ok (mroot hempty hleaf hbranch (upd l (N.to_nat pos) y)).
+Proof. exact @update_single. Qed.
+
+(* Reload: after appending any non-empty list to a new tree, decoding the stored info record gives back the current
+   state, which is (batch root, append path, size) of the list.  The codec round trip of the info record (C08) is the
+   hypothesis. *)
+Theorem C11_reload_preserves : forall (D Hsh : Type) (hempty : Hsh) (hleaf : D -> Hsh) (hbranch : Hsh -> Hsh -> Hsh)
+    (enc : @rstate Hsh -> list N) (dec : list N -> option (@rstate Hsh)),
+  (forall s, dec (enc s) = Some s) ->
+  forall l : list D, l <> [] ->
+  exists s c, append_all_st hleaf hbranch enc l (rinit hempty, None) = Some (s, c) /\ load dec c = Some s /\
+              s = RS (mroot hempty hleaf hbranch l) (subtree_roots hempty hleaf hbranch l) (N.of_nat (length l)).
+Proof. exact @reload_preserves. Qed.
+
+(* non-vacuity of the soundness hypotheses: the free hash is injective and its equality test is exact *)
+Fixpoint fh_eqb (a b : fh) : bool :=
+  match a, b with
+  | FE, FE => true
+  | FL x, FL y => Nat.eqb x y
+  | FB a1 a2, FB b1 b2 => fh_eqb a1 b1 && fh_eqb a2 b2
+  | _, _ => false
+  end.
+Example C11_ex_proof5 :
+  exists sibs, generate_proof (node_of FE FL FB [1; 2; 3; 4; 5]%nat) 5 [Some (0, 4)] = Ok (5, [leaf_idx 5 4], sibs) /\
+               sibs = [FB (FB (FL 1) (FL 2)) (FB (FL 3) (FL 4))]%nat /\
+               verify_proof FB fh_eqb [FL 5%nat] 5 [leaf_idx 5 4] sibs (mroot FE FL FB [1; 2; 3; 4; 5]%nat) = true.
+Proof. eexists. split; [vm_compute; reflexivity|]. split; [reflexivity|vm_compute; reflexivity]. Qed.
